@@ -189,6 +189,18 @@ def evaluate(cases, rep, tier):
         ra, rb = er[2 * i], er[2 * i + 1]
         if ra != rb or not ra.startswith("1"):
             counter.append({"input": " ".join(a.impl_line().split()[:5]) + f" <{len(a.args) - 4} data bytes>", "expected": "the encoder built through the plan cache equals the encoder built without it", "observed": (ra[:50] + " vs " + rb[:50]), "oracle": "cache transparency through SourceBlockEncoder::new"})
+    # a refused request (symbol count beyond the largest block size: the library panics) on another thread must not
+    # disturb anybody else: the same schedules afterwards give the same traces (a lock poisoned by that panic, or a
+    # cache left half-updated, shows here)
+    sample = [c for c in cases if c.tag in ("enum2x2", "random", "race_at_capacity")][:12]
+    ref = C.run_impl_crashsafe(sample, "release", chunk=1, timeout=300)
+    for prof in PROFILES:
+        aft = C.run_impl_crashsafe([C.Case("cache_trace_after_refusal", [rng_bad] + c.args) for c, rng_bad in zip(sample, [60000, 56404, 65535] * 4)], prof, chunk=1, timeout=300)
+        for c, r0, r1 in zip(sample, ref, aft):
+            t0, t1 = r0.split(), r1.split()
+            if t0[0] == "1" and (t1[0] != "1" or t1[2:] != t0[1:]):
+                counter.append({"input": "cache_trace_after_refusal 60000 " + c.impl_line()[12:300], "expected": "the same trace as without the refused request on another thread", "observed": r1[:80], "profile": prof, "oracle": "C17 transparency: a refused request on one thread leaves every other request unaffected"})
+                break
     nt = 0
     for c, i in zip(cases, impl):
         why = property_check(c, i)
